@@ -1319,6 +1319,10 @@ func wsURLDriver(a *Args) {
 		dmu.Lock()
 		dialed = append(dialed, addr)
 		dmu.Unlock()
+		if addr == "127.0.0.1:80" {
+			// the backend of the pass that configures the agent with a host without a port (ws default port)
+			return (&net.Dialer{}).DialContext(ctx, network, be.host())
+		}
 		if addr != be.host() {
 			return nil, fmt.Errorf("harness: refusing to connect to foreign address %q", addr)
 		}
@@ -1334,61 +1338,84 @@ func wsURLDriver(a *Args) {
 	n := 0
 	classes := append([]string{}, cases.URLs...)
 	classes = append(classes, cases.Reserved...)
-	for _, class := range classes {
-		reps := per
-		if strings.HasPrefix(class, "rsv|") {
-			reps = (per + 4) / 5
+	// configuration classes of --host: "host:port" (every class, several times) and a host without a port, which
+	// means the scheme's default port (every class once)
+	backendName := be.host()
+	for pass, hostForm := range []string{"host:port", "host"} {
+		if pass == 1 {
+			var cancel2 func()
+			shim, cancel2 = newShim("127.0.0.1", false)
+			defer cancel2()
+			backendName = "127.0.0.1:80"
 		}
-		for k := 0; k < reps; k++ {
-			n++
-			label := fmt.Sprintf("u%d", n)
-			body := concreteURL(class, label, rng)
-			dmu.Lock()
-			dialed = nil
-			dmu.Unlock()
-			st, rb := shim.call("open", body, "1")
-			time.Sleep(2 * time.Millisecond)
-			dmu.Lock()
-			d := append([]string{}, dialed...)
-			dmu.Unlock()
-			wantPath, wantQuery := "", ""
-			if u, err := url.Parse(body); err == nil {
-				wantPath, wantQuery = u.EscapedPath(), u.RawQuery
+		for _, class := range classes {
+			reps := per
+			if strings.HasPrefix(class, "rsv|") {
+				reps = (per + 4) / 5
 			}
-			sawPath, sawQuery := "", ""
-			if st == 200 {
-				var r struct {
-					ID string `json:"id"`
+			if pass == 1 {
+				reps = 1
+				if strings.HasPrefix(class, "rsv|") && n%3 != 0 {
+					n++
+					continue
 				}
-				json.Unmarshal(rb, &r)
-				be.mu.Lock()
-				var found bool
-				for l, p := range be.paths {
-					if strings.Contains(p[1], "s="+label) || l == label {
-						sawPath, sawQuery, found = p[0], p[1], true
+			}
+			_ = hostForm
+			for k := 0; k < reps; k++ {
+				n++
+				label := fmt.Sprintf("u%d", n)
+				body := concreteURL(class, label, rng)
+				dmu.Lock()
+				dialed = nil
+				dmu.Unlock()
+				st, rb := shim.call("open", body, "1")
+				time.Sleep(2 * time.Millisecond)
+				dmu.Lock()
+				d := append([]string{}, dialed...)
+				dmu.Unlock()
+				wantPath, wantQuery := "", ""
+				if u, err := url.Parse(body); err == nil {
+					wantPath, wantQuery = u.EscapedPath(), u.RawQuery
+				}
+				sawPath, sawQuery := "", ""
+				if st == 200 {
+					var r struct {
+						ID string `json:"id"`
 					}
-				}
-				be.mu.Unlock()
-				if !found {
-					// the handshake carried no label (URL class without query): take the newest connection
+					json.Unmarshal(rb, &r)
 					be.mu.Lock()
-					if p, ok := be.paths[""]; ok {
-						sawPath, sawQuery = p[0], p[1]
+					var found bool
+					for l, p := range be.paths {
+						if strings.Contains(p[1], "s="+label) || l == label {
+							sawPath, sawQuery, found = p[0], p[1], true
+						}
 					}
 					be.mu.Unlock()
+					if !found {
+						// the handshake carried no label (URL class without query): take the newest connection
+						be.mu.Lock()
+						if p, ok := be.paths[""]; ok {
+							sawPath, sawQuery = p[0], p[1]
+						}
+						be.mu.Unlock()
+					}
+					shim.call("close", fmt.Sprintf(`{"id":%q}`, r.ID), "1")
 				}
-				shim.call("close", fmt.Sprintf(`{"id":%q}`, r.ID), "1")
+				if !strings.HasPrefix(wantPath, "/") {
+					// a relative path is attached to the backend authority with a slash
+					wantPath = "/" + wantPath
+				}
+				if sawPath == "" {
+					sawPath = "/"
+				}
+				sig := "url:" + class
+				if pass == 1 {
+					sig += ":host-without-port"
+				}
+				hx.Emit("OpenCase", "class", class, "sig", sig, "url", headOf([]byte(body), 120), "status", st, "dialed", d, "backend", backendName,
+					"want_path", wantPath, "want_query", wantQuery, "saw_path", sawPath, "saw_query", sawQuery)
+				res.Case(sig, map[string]interface{}{"class": class, "example": headOf([]byte(body), 100), "configured_host": hostForm})
 			}
-			if !strings.HasPrefix(wantPath, "/") {
-				// a relative path is attached to the backend authority with a slash
-				wantPath = "/" + wantPath
-			}
-			if sawPath == "" {
-				sawPath = "/"
-			}
-			hx.Emit("OpenCase", "class", class, "sig", "url:"+class, "url", headOf([]byte(body), 120), "status", st, "dialed", d, "backend", be.host(),
-				"want_path", wantPath, "want_query", wantQuery, "saw_path", sawPath, "saw_query", sawQuery)
-			res.Case("url:"+class, map[string]interface{}{"class": class, "example": headOf([]byte(body), 100)})
 		}
 	}
 	// requests outside the shim prefix go to the wrapped handler untouched
